@@ -29,12 +29,23 @@ var c15Exprs = []string{
 	"*", "m.*", "keys(m)", "values(m)", "items(m)", "o[*].*", "m.* | length(@)", "length(keys(m))", "sort(keys(m))", "sort(values(m))", "sum(values(m))", "max(values(m))", "keys(merge(m, n))", "keys(m) | sort(@)",
 	"*.x", "deep.*.x", "deep.*.*", "items(m)[*][0]", "sort(items(m)[*][0])", "from_items(items(m))", "from_items(items(m)) == m", "to_string(m)", "to_string(deep)", "length(values(deep))", "*.*",
 	"values(m)[?@ > `1`] | sort(@)", "contains(keys(m), 'x')", "contains(values(m), `2`)", "map(&length(@), values(deep)) | sort(@)", "type(keys(m))", "not_null(m.*)",
-	// nothing map-related at all (control)
+	// nothing map-related at all: repeated evaluations of one compiled expression and evaluation order of long projections
+	"reverse(`[1,2,3]`)", "sort(`[3,1,2]`)", "o[*].[a, reverse(`[\"p\",\"q\"]`)[0]]", "`[3,1,2]`[::-1]", "reverse(keys(m)) | sort(@)", "big[*].k", "big[*].k | [0]", "big[*].k | [-1]", "join(',', big[*].s)",
+	"big[?k > `300`].k | [0]", "big[].k | [5]", "map(&k, big) | [511]", "big[*].[k][] | [600]", "length(big[*].k)", "sort_by(big, &s)[0].k", "big[::-1][*].k | [0]",
 	"a", "o[*].a", "sort_by(o, &a)[*].k", "a + b",
+}
+
+func c15Big(n int) string {
+	parts := make([]string, n)
+	for i := range parts {
+		parts[i] = fmt.Sprintf(`{"k":%d,"s":"s%d"}`, i, i%97)
+	}
+	return "[" + strings.Join(parts, ",") + "]"
 }
 
 func c15Docs() []string {
 	return []string{
+
 		`{"a":1,"b":2,"c":3,"m":{"x":1,"y":2,"z":3},"n":{"y":20,"z":3,"w":4},"o":[{"a":1,"b":2,"k":"x"},{"a":3,"b":4,"k":"y"},{"a":1,"b":2,"k":"x"}],"pairs":[["k",1],["j",2],["k",3]],"deep":{"p":{"x":1,"y":2},"q":{"x":3},"r":{}}}`,
 		`{"a":"s","b":null,"m":{"x":null,"y":[1],"z":{"x":1}},"n":{},"o":[],"pairs":[],"deep":{"p":{"x":{"x":1}}}}`,
 		`{"a":[1,2],"b":{"x":1},"c":0,"m":{"x":1,"y":1,"z":1,"w":1},"n":{"x":1,"y":1,"z":1,"w":1},"o":[{"k":"x"},{"k":"x"},{"k":"z"}],"pairs":[["a","b"],["c","d"],["e","f"]],"deep":{"a":{"b":1},"b":{"a":1}}}`,
@@ -179,6 +190,20 @@ func c15Explore(r *core.Run, expr string, docText string) *core.Violation {
 	base := c15Execute(c, d.Raw, nil)
 	r.Eval(base.Obs)
 	r.Add("states", 1)
+	// the same answers again (on the same compiled expression, and through a fresh compilation): identical observation
+	for k := 0; k < 3; k++ {
+		var again core.Obs
+		if k == 2 {
+			again = core.Search(expr, d.Raw)
+		} else {
+			again = c15Execute(c, d.Raw, nil).Obs
+		}
+		r.Add("evaluations", 1)
+		if again.Key() != base.Obs.Key() && !(again.Kind == "err" && base.Obs.Kind == "err") {
+			return &core.Violation{Sig: "C15/repeated-evaluation-differs/" + fnOf(expr), Desc: fmt.Sprintf("Search(%q, %s) evaluated again with the same map orders", expr, trunc(docText, 100)),
+				Point: map[string]any{"expr": expr, "doc": docText, "choices": "", "strict": true, "repeat": true}, Expected: "the first outcome: " + base.Obs.Short(), Actual: again.Short()}
+		}
+	}
 	interesting := false
 	product := 1
 	for _, q := range base.Questions {
@@ -211,6 +236,7 @@ func c15Explore(r *core.Run, expr string, docText string) *core.Violation {
 		}
 		x := c15Execute(c, d.Raw, prefix)
 		execs++
+		r.Beat()
 		r.Add("transitions", 1)
 		r.Add("evaluations", 1)
 		if len(prefix) > 0 {
@@ -324,7 +350,12 @@ func c15AllExprs() []string {
 
 func c15Pairs() [][2]string {
 	var out [][2]string
+	bigDoc := `{"m":{"x":1,"y":2},"big":` + c15Big(700) + `}`
 	for _, e := range c15AllExprs() {
+		if strings.Contains(e, "big") {
+			out = append(out, [2]string{e, bigDoc})
+			continue
+		}
 		for _, d := range c15Docs() {
 			out = append(out, [2]string{e, d})
 		}
@@ -431,6 +462,9 @@ func c15Judge(r *core.Run, phase string, pt map[string]any) *core.Violation {
 		if _, err := fmt.Sscan(s, &k); err == nil {
 			prefix = append(prefix, k)
 		}
+	}
+	if pbool(pt, "repeat") {
+		return c15Explore(r, expr, docText)
 	}
 	c := prepareImplCached(expr)
 	d := mkDoc(docText)
